@@ -65,6 +65,17 @@ def run(ctx):
         c["flags"] &= ~0x10000
         c["max_cost"] = 11000000000
     g, cases, consts_hex, valid = condlib.make_cases(rng.fork("cases"), n, ["aggsig", "aggsig", "ff", "single", "multi"], tweak)
+    # the domain-separation constants the repository ships (TEST_CONSTANTS) follow the network rule
+    # additional_data(opcode) = sha256(AGG_SIG_ME additional data ++ opcode byte) for opcodes 43..48
+    cbx = bytes.fromhex(consts_hex)
+    csx = [cbx[i * 32:(i + 1) * 32] for i in range(7)]
+    for idx, op in ((1, 43), (2, 44), (3, 45), (4, 46), (5, 47), (6, 48)):
+        want = hashlib.sha256(csx[0] + bytes([op])).digest()
+        rep.evaluations += 1
+        if csx[idx] != want:
+            rep.add_failure("cond.consts/oracle", "cond.consts", csx[idx].hex(), want.hex(),
+                            "the additional-data constant wired to AGG_SIG opcode %d is not sha256(AGG_SIG_ME data ++ %d): signatures made "
+                            "for that opcode's domain are rejected and another opcode's domain is accepted" % (op, op))
     # every AGG_SIG opcode with every kind of unusable key (outside the subgroup, infinity, not on the curve)
     import condgen
     extra = [c for c in condgen.matrix2_cases(g) if any(str(t[1]).startswith("badkey") for t in c["tags"])]
